@@ -222,10 +222,10 @@ def main():
                 mut_ev.append({"unit": r["unit"], "instance": r["instance"], "mutant": mu["name"], "refuted": ok,
                                "by": [f["id"] for f in r["failures"]][:4], "status": r["status"], "reason": r["reason"][:300]})
                 if not ok:
-                    machinery.append("seeded fault %s/%s/%s survived (%s %s)" % (r["unit"], r["instance"], mu["name"], r["status"], r["reason"][:200]))
+                    machinery.append("seeded fault %s/%s/%s survived (%s %s)" % (r["unit"], r["instance"], mu["name"], r["status"], " | ".join(r["reason"].splitlines()[:3])[:200]))
                 continue
             if r["status"] == "machinery":
-                machinery.append("%s/%s: %s" % (r["unit"], r["instance"], r["reason"]))
+                machinery.append("%s/%s: %s" % (r["unit"], r["instance"], " | ".join(r["reason"].splitlines()[:6])[:700]))
             obligations += r["obligations"]
             discharged += r["discharged"]
             uev = {k: r[k] for k in ("unit", "instance", "function", "status", "obligations", "discharged", "solver_s", "time_s", "rmode", "backend", "slices")}
